@@ -369,7 +369,12 @@ class MultiAgentProblem(  # type: ignore[misc]
         ops = self._operators_extractor.get(exp)
         if OperatorKind.EQUALS in ops:
             self._kind.set_conditions_kind("EQUALITIES")
-        if OperatorKind.NOT in ops:
+        if (
+            OperatorKind.NOT in ops
+            or OperatorKind.IMPLIES in ops
+            or OperatorKind.IFF in ops
+        ):
+            # a -> b is (not a) or b: implications and equivalences negate an operand
             self._kind.set_conditions_kind("NEGATIVE_CONDITIONS")
         if (
             OperatorKind.OR in ops
